@@ -420,13 +420,7 @@ impl<'l, T: Debug> OrderedLocalQueue<'l, T> {
                                 //可偷取的最大长度与本地队列可偷长度做比较
                                 n.min(self.max_steal())
                                     //与其他队列当前长度的一半做比较
-                                    .min(
-                                        worker
-                                            .capacity()
-                                            .saturating_sub(worker.spare_capacity())
-                                            .saturating_add(1)
-                                            .saturating_div(2),
-                                    )
+                                    .min(n.saturating_add(1).saturating_div(2))
                             })
                             .is_ok()
                         {
